@@ -145,6 +145,19 @@ func vdrCase(c *Ctx, focus string) {
 		cfg.Crashes = []CrashSpec{{Inc: 1, AtGate: 40 + c.Plan.Draw(600), Kind: []string{"kill", "sigterm", "powerloss"}[c.Plan.Draw(3)]}}
 		cfg.Restarts = 1
 	}
+	// C04 across a restart: what the first mrp knew about who still needs which file
+	// is gone; the second one rebuilds it from the metadata on disk - and in half of
+	// these runs some of its reads of that metadata fail (EIO, too little memory to
+	// load a large _outs): what cannot be read must not be taken for "needs nothing"
+	c04Restart, readFaults := false, false
+	readSalt := fmt.Sprintf("rd%d", c.Plan.Draw(1<<20))
+	if focus == "C04" && (c.Plan.Draw(6) == 0 || os.Getenv("VERIF_C04") == "restart") {
+		c04Restart, interrupted = true, true
+		cfg.Crashes = []CrashSpec{{Inc: 1, AtGate: 40 + c.Plan.Draw(600), Kind: []string{"kill", "sigterm", "sigint"}[c.Plan.Draw(3)]}}
+		cfg.Restarts = 1
+		readFaults = c.Plan.Draw(2) == 0
+		c.Res.Probes["runs-with-restart"]++
+	}
 	// removal faults: some paths cannot be removed (a file still held open on NFS
 	// makes the directory "not empty", a foreign owner makes it EACCES); every
 	// attempt of the storage code on such a path fails.  What could not be removed
@@ -167,6 +180,20 @@ func vdrCase(c *Ctx, focus string) {
 							e = syscall.EACCES
 						}
 						return &os.PathError{Op: "unlinkat", Path: r.abs(ev.Path), Err: e}
+					}
+					return nil
+				}
+			}
+		}
+	}
+	if readFaults {
+		setup = func(r *Run) {
+			r.PreStart = func() {
+				vos.W.BeforeRead = func(pkind, stack, p string) error {
+					if r.Inc >= 2 && pkind == "mrp" && strings.Contains(stack, "storage.go") && strings.HasSuffix(p, "/_outs") &&
+						hash64(readSalt, p)%2 == 0 {
+						r.Faults["metadata-read-fails-in-storage-code"]++
+						return &os.PathError{Op: "open", Path: r.abs(p), Err: syscall.EIO}
 					}
 					return nil
 				}
@@ -296,7 +323,7 @@ func vdrCase(c *Ctx, focus string) {
 		}
 	}
 	// ---- C04 (iii): final outputs exist with their original content ----
-	if !ev.Incomplete && ev.Ambiguous == 0 && !interrupted {
+	if !ev.Incomplete && ev.Ambiguous == 0 && (!interrupted || c04Restart) {
 		act, err := r.ReadTopOuts()
 		if err != nil {
 			add("C04", "top-outs-missing", err.Error())
